@@ -214,4 +214,52 @@ def targets(tier):
                ensures=[("effective-metaclass-typeddict-and-tuple-types-visited-iff-present", ens_tail)], raises=(), overrides=dict(OV, **{"mypy.nodes:SymbolTableNode.type": returns(TOpt(TObj(T.Type)), "member_type"), "mypy.nodes:TypeInfo.protocol_members": returns(TLList(TStr()), "protocol_members")}), field_types=FT, loops=loops,
                note="whole function at its normal exits, the loops under trivial invariants (their bodies are the per-iteration targets); the protocol-member clause is not under contract"),
         StaticCheck("indirect.visit_instance.nest", check_nest, note="loop nest, decided on the source"),
-    ]
+    ] + targets_reset(tier)
+
+
+# ---- the visitor is shared by all modules of a build: find_modules() must start from a clean state, or
+# what is recorded for a module depends on which modules were processed before it (C10 file order, C02)
+
+
+def check_visitor_reset():
+    import inspect
+
+    tree = ast.parse(inspect.getsource(IND))
+    cls = next(n for n in tree.body if isinstance(n, ast.ClassDef) and n.name == "TypeIndirectionVisitor")
+    init = next((m for m in cls.body if isinstance(m, ast.FunctionDef) and m.name == "__init__"), None)
+    fm = next((m for m in cls.body if isinstance(m, ast.FunctionDef) and m.name == "find_modules"), None)
+    if init is None or fm is None:
+        return [{"name": "indirect/find_modules-starts-clean", "status": "unknown", "where": "__init__ / find_modules not found"}]
+
+    def self_targets(fn, only_top=False):
+        out = {}
+        nodes = fn.body if only_top else list(ast.walk(fn))
+        for n in nodes:
+            tgts = n.targets if isinstance(n, ast.Assign) else [n.target] if isinstance(n, ast.AnnAssign) and n.value is not None else []
+            for t in tgts:
+                if isinstance(t, ast.Attribute) and isinstance(t.value, ast.Name) and t.value.id == "self":
+                    out[t.attr] = n.value
+        return out
+
+    def fresh_container(v):
+        return isinstance(v, (ast.Set, ast.Dict, ast.List)) and not (getattr(v, "elts", None) or getattr(v, "keys", None)) or \
+            (isinstance(v, ast.Call) and isinstance(v.func, ast.Name) and v.func.id in ("set", "dict", "list") and not v.args)
+
+    state = {a for a, v in self_targets(init).items() if fresh_container(v)}
+    # only assignments that precede the first loop of find_modules count as a reset
+    first_loop = next((k for k, st in enumerate(fm.body) if isinstance(st, (ast.For, ast.While))), len(fm.body))
+    pre = ast.Module(body=fm.body[:first_loop], type_ignores=[])
+    reset = {a for a, v in self_targets(pre).items() if fresh_container(v)}
+    obs = []
+    if not state:
+        return [{"name": "indirect/find_modules-starts-clean", "status": "unknown", "where": "no accumulated state found in __init__"}]
+    for a in sorted(state):
+        ok = a in reset
+        obs.append({"name": f"indirect/find_modules-starts-clean/{a}", "status": "discharged" if ok else "refuted", "where": "mypy/indirection.py TypeIndirectionVisitor.find_modules",
+                    "detail": "" if ok else f"self.{a} accumulates across calls of find_modules on the shared visitor: the modules recorded for one module depend on which modules were processed before it",
+                    "key": f"indirect-reset:{a}", "confirmed": True})
+    return obs
+
+
+def targets_reset(tier):
+    return [StaticCheck("indirect.find_modules.reset", check_visitor_reset, note="every container the visitor's __init__ creates is re-created before find_modules starts visiting (source-level frame)")]
